@@ -114,6 +114,10 @@ func (destinationShare *DestinationShare) validate(primaryShareName string) erro
 }
 
 func (account Account) Validate() error {
+	if !utf8.ValidString(account.Id) {
+		// also for MAIN, whose id is never used but is stored and exported
+		return fmt.Errorf("account id is not valid UTF-8")
+	}
 	switch account.Type {
 	case Main:
 		return nil
